@@ -136,6 +136,11 @@ def jobs(prog, tier):
             if tier != 'thorough' and (chunk, padding) == ('Shake', 'Shake') and nseg > 1:
                 continue
             js.append(('vmess::decode_packet[Aes128Gcm,%s,%s,server,segments=%d]' % (chunk, padding, nseg), make_vmess_body_job('Aes128Gcm', chunk, padding, 'server', tier, nseg, packet=True), 1500))
+    for (chunk, padding, command) in (('Auth', 'Empty', 'TCP'), ('Plain', 'Empty', 'UDP'), ('Shake', 'Empty', 'TCP')):
+        for nseg in segs:
+            if tier != 'thorough' and chunk != 'Auth' and nseg > 1:
+                continue    # unauthenticated size fields with symbolic cuts: 20 min per job, thorough tier only
+            js.append(('vmess::ServerAeadCodec[Aes128Gcm,%s,%s,%s,segments=%d]' % (chunk, padding, command, nseg), make_vmess_server_job('Aes128Gcm', chunk, padding, command, tier, nseg), 3000))
     return js
 
 
@@ -171,4 +176,100 @@ def make_vmess_body_job(security, chunk, padding, side, tier, nseg, packet=False
                 prove_all(ctx, ex, p, rel, genuine.payloads, 'a valid stream has completely arrived but not all of its content is released (stall or loss) in some segmentation', site, rp)
         ctx.out.vacuity = [('some run ends with the transport quiet', nquiet > 0)]
         ctx.out.samples.append({'decoder': fn.name, 'options': [security, chunk, padding, side], 'segments': nseg, 'runs': len(results)})
+    return job
+
+
+# --------------------------------------------------------------------------- VMess server: auth id + sealed header + data section
+def inbound_item(ex, p):
+    """Result<Option<InboundIn>> -> [(cond, kind, value)]; value = Agg('item', (msg[, addr]), variant name)"""
+    r = p.ret
+    outs = []
+    if 'Err' in r.payloads or not z3.is_true(z3.simplify(r.disc == 0)):
+        outs.append((r.disc == 1, 'err', None))
+    if 'Ok' in r.payloads:
+        o = r.payloads['Ok'][0]
+        outs.append((z3.And(r.disc == 0, o.disc == 0), 'none', None))
+        if 'Some' in o.payloads:
+            it = o.payloads['Some'][0]
+            d = z3.simplify(it.disc)
+            if not z3.is_bv_value(d):
+                raise Inconclusive('item variant not determined on the path')
+            for var, fs in it.payloads.items():
+                outs.append((z3.And(r.disc == 0, o.disc == 1), 'some', Agg('item', fs, var)))
+                break
+    return outs
+
+
+def vmess_server_exec(ctx, mode, unroll=14):
+    from .vmess_cases import vmess_cases
+    ex = c05.base_exec(ctx, 16, unroll, mode=mode)
+    vmess_option_contract(ex)
+    c05.shake_contract(ex)
+    return ex
+
+
+def exact_authid_contracts(ex, plain, crc, fnv):
+    """the genuine auth id decrypts (under the registered key) to `plain`, whose CRC field is correct; the header checksum is correct"""
+    def ecb(ex_, p, m, a, func, fr):
+        s = ex_.as_sref(p.st, a[1])
+        return one(U(), apply=lambda q: ex_.bytes_fill(q.st, s, plain, bv64(0), bv64(16)))
+    ex.overrides.insert(0, (re.compile(r'Aes128EcbNoPadding::decrypt$'), ecb))
+    ex.overrides.insert(0, (re.compile(r'(^|::)crc32$'), lambda ex_, p, m, a, fu, fr: one((crc, 'u32'))))
+    ex.overrides.insert(0, (re.compile(r'(?:^|::)fnv1a32$'), lambda ex_, p, m, a, fu, fr: one((fnv, 'u32'))))
+
+
+def make_vmess_server_job(security, chunk, padding, command, tier, nseg):
+    def job(ctx):
+        K = c05.K_of(tier)
+        prog = ctx.prog
+        ex = vmess_server_exec(ctx, 'exact')
+        cmdkey = z3.Array('cmdkey0', BV64, BV8)
+        req = wire.vmess_request(cmdkey, security, chunk, padding, command, K)
+        plain = z3.Array('authid_plain', BV64, BV8)
+        crc = z3.BitVec('authid_crc', 32)
+        exact_authid_contracts(ex, plain, crc, req.fields['fnv'])
+        fs = prog.find_impl_fn('ServerAeadCodec', 'decode', trait='Decoder', crate='octo-squirrel-server')
+        codec = Agg('struct', (List((Arr(cmdkey, 'u8', 16),)), Enum(bv64(0), {}, 'DecodeState'), Enum(bv64(0), {}, 'EncodeState'), (F, 'bool')), 'ServerAeadCodec')
+        src = req.realize()
+        secs = z3.BitVec('clock_secs', 64)
+        ts = z3.Concat(*[z3.Select(plain, bv64(i)) for i in range(8)])
+        d = z3.SignExt(2, ts) - z3.SignExt(2, secs)
+        pcs = req.constraints + req.layout + [z3.Concat(*[z3.Select(plain, bv64(12 + i)) for i in range(4)]) == crc, d <= 120, d >= -120, secs >= 0, secs < (1 << 61), ts > -(1 << 61), ts < (1 << 61)]
+        ex.inputs = {'src': src}
+        ex.inputs.update(c05.payload_inputs('chunk', req))
+        for k in range(req.draws + 2):
+            ex.inputs['shake%d' % k] = (wire.shake_draw(k), 'u16')
+        ex.inputs['header'] = Buf('slice', req.fields['header'], bv64(0), req.fields['hlen'])
+        ex.inputs['authid_plain'] = Arr(plain, 'u8', 16)
+        base_rp = c05.framed_spec('vmess_server', {'security': security, 'chunk': chunk, 'padding': padding, 'command': command}, 'all_delivered', [['chunk%d' % i for i in range(K)]])
+
+        def rp(m):
+            s = base_rp(m)
+            hd = m.get('header')
+            if s is None or not isinstance(hd, dict) or hd['len'] > len(hd['bytes']):
+                return None
+            s.update(header=hd['bytes'], tagged=True, first_kind=0 if command == 'TCP' else 2)
+            if command == 'UDP':
+                s['item_count'] = K
+            return s
+        results = c05.drive(ex, fs, [Ref('#self'), Ref('#src')], {'#self': codec, '#src': src}, pcs, {'sealed': list(req.entries)}, 3 * nseg + 3 * K + 5, inbound_item, nseg=nseg)
+        site = fs.name + '@framed'
+        want_first = 'ConnectTcp' if command == 'TCP' else 'RelayUdp'
+        nquiet = 0
+        for p, rel, end in results:
+            ctx.absorb(ex, [p])
+            if end == 'calls':
+                ctx.out.inconclusive.append('decode call bound reached')
+            elif end == 'err':
+                ctx.prove(ex, p, F, 'a valid request is refused with an error in some segmentation', site, replay=rp)
+            elif end == 'quiet':
+                nquiet += 1
+                msgs = [v.fields[0] for v in rel]
+                if rel:
+                    ctx.prove(ex, p, T if rel[0].name == want_first else F, 'the first item of a valid request is %s instead of %s in some segmentation (the server then drops the flow)' % (rel[0].name, want_first), site, replay=rp)
+                if command == 'UDP':
+                    ctx.prove(ex, p, T if len(rel) == K else F, 'datagram boundaries are not preserved (%d items for %d datagrams)' % (len(rel), K), site, replay=rp)
+                prove_all(ctx, ex, p, msgs, req.payloads, 'a valid request has completely arrived but not all of its content is released (stall or loss) in some segmentation', site, rp)
+        ctx.out.vacuity = [('some run ends with the transport quiet', nquiet > 0)]
+        ctx.out.samples.append({'decoder': 'vmess::ServerAeadCodec::decode', 'options': [security, chunk, padding, command], 'segments': nseg, 'runs': len(results)})
     return job
